@@ -84,6 +84,10 @@ class ProgGen(object):
         if tok_kind == "k" and r.random() < o["p_async"] and all(oc in ("pass", "fail", "error", "pending", "skip", "undefined", "conv")
                                                                for _, oc in finals):
             tok_kind = "a"
+        elif tok_kind == "k" and r.random() < o.get("p_cuke", 0.0):
+            # a step whose definition is a parameterless cucumber expression (the literal final text), from a step module that
+            # selects behave.cucumber_expression's matcher
+            tok_kind = "c"
         tok = "%s%d" % (tok_kind, n)
         text = tmpl % tok
         for v, oc in finals:
